@@ -146,14 +146,18 @@ async def handle_value_changes(
             changed_set_str.add(port)
             continue
 
-        if not await port.is_internal():
-            value_pair = value_pairs.get(port)
-            if not value_pair:
-                continue
-            await port.trigger_value_change(*value_pair)
+        # A failing port (e.g. an attribute getter raising) must not prevent the handling of the other ports
+        try:
+            if not await port.is_internal():
+                value_pair = value_pairs.get(port)
+                if not value_pair:
+                    continue
+                await port.trigger_value_change(*value_pair)
 
-        if await port.is_persisted():
-            port.save_asap()
+            if await port.is_persisted():
+                port.save_asap()
+        except Exception as e:
+            logger.error('failed to handle value change of %s: %s', port, e, exc_info=True)
 
     # Reevaluate the expressions depending on changed ports
     for port in core_ports.get_all():
